@@ -12,8 +12,10 @@ is itself cross-checked on every run.  What IS modelled, branch for branch:
 * `marshal`  — mark rejection, the dynamic wrapper `[typeJSON, value]`, unknown
   values as extension items with a refinement map (keys 1–6, prefix truncation
   at `maxPrefixLength`, bounds), null, number encoding selection
-  (int64 / float64-if-exact-and-not-whole / decimal string), collections.
-* `unmarshal` — per target type, what every `Decode*` call of the library
+  (int64 / float64-if-exact-and-not-whole / all digits of a whole number beyond int64 /
+  shortest decimal string), collections.
+* `Unmarshal` / `unmarshal` — the exported function takes the optional-attribute annotations
+  off the requested type and calls the recursive one: per target type, what every `Decode*` call of the library
   accepts from every item kind (as far as the Go code relies on it), length and
   shape checks, number decoding, replay of the refinement map through the
   refinement builder of `Refine.lean`, `ListVal`/`MapVal`/`SetVal`/`TupleVal`/
@@ -133,15 +135,29 @@ inductive Route where
   | inf (neg : Bool)          -- `RawEquals(PositiveInfinity / NegativeInfinity)` → float64 ±Inf
   | int (i : Int)             -- `bf.Int64()` exact
   | f64 (x : Num)             -- `bf.Float64()` exact and not a whole number
-  | str (s : String)          -- `bf.Text('f', -1)`
+  | str (s : String)          -- `bf.Text('f', 0)` (whole, beyond int64) or `bf.Text('f', -1)`
   deriving Repr, BEq, DecidableEq
 
+/-- `x.Text('f', 0)` (math/big `%f` with precision 0): the exact decimal expansion of the
+number, rounded to zero fractional digits (`d.round(d.exp + 0)`), printed without a point.
+For a whole number that is all of its digits. -/
+def textF0 : Num → String
+  | .inf n => if n then "-Inf" else "+Inf"
+  | .fin n m e _ =>
+    let s := if n then "-" else ""
+    if m = 0 then s ++ "0"
+    else
+      let d := Num.Dec.ofME m e
+      s ++ Num.fmtF 0 (d.round d.exp)
+
+/-- the `default:` branch of the Number case: `Int64()` exact, else `Float64()` exact and
+not whole, else — since /repo 986ad55 — all digits of a whole number, else the shortest text -/
 def route (x : Num) : Route :=
   match x with
   | .inf n => .inf n
   | _ =>
     match x.toInt? with
-    | some i => if minI64 ≤ i ∧ i ≤ maxI64 then .int i else .str (Num.textF x)
+    | some i => if minI64 ≤ i ∧ i ≤ maxI64 then .int i else .str (textF0 x)
     | none =>
       let f := Num.toF64 x
       if f.2 then .f64 f.1 else .str (Num.textF x)
@@ -544,8 +560,7 @@ def unmarshal (E : Ext) (it : Item) (ty : Ty) : Res Value :=
      | .string =>
        (match decString it with
         | .ok s => .ok ⟨.string, .s (E.norm s)⟩
-        | .err "utf8" => .unmodelled        -- `StringVal` of bytes that are not UTF-8
-        | .err c => .err c
+        | .err _ => .err "string is required"     -- also bytes that are not UTF-8 (`utf8.ValidString`)
         | .panic w => .panic w
         | .unmodelled => .unmodelled)
      | .dyn => .err "array"
@@ -564,7 +579,7 @@ def unmarshal (E : Ext) (it : Item) (ty : Ty) : Res Value :=
             | .bin _ | .str _ => .unmodelled      -- JSON lexing of raw bytes is not modelled
             | _ => .err "bytes"
           (match tyr with
-           | .ok ty' => unmarshal E body ty'
+           | .ok ty' => unmarshal E body ty'.stripOpt     -- `ty.WithoutOptionalAttributesDeep()`
            | .err e => .err e
            | .panic w => .panic w
            | .unmodelled => .unmodelled)
@@ -728,6 +743,11 @@ def rfnLoop (E : Ext) (ty : Ty) : Nat → List Item → Builder → Res Builder
          | [] => .err "failed to decode msgpack extension body"
          | _ :: rest' => rfnLoop E ty n rest' b)
 end
+
+/-- `Unmarshal(b, ty)`: optional-attribute annotations are taken off the requested type
+first (`ty.WithoutOptionalAttributesDeep()`, /repo afdc0a2), so the type of the result
+never carries them; `unmarshal` is the unexported recursive function. -/
+def Unmarshal (E : Ext) (it : Item) (ty : Ty) : Res Value := unmarshal E it ty.stripOpt
 
 end Oracle
 
